@@ -185,6 +185,17 @@ Theorem C03_header_and_column_spellings : forall g its e c (cs : list scitem) ce
                     (map (fun cells => combine (map fst (allcols c cs)) cells) rows)), []).
 Proof. exact grid_spelled_reads. Qed.
 
+(* THE WHOLE SURFACE AT ONCE: header line, column line and every row in any of these spellings *)
+Theorem C03_document_any_spelling : forall g its e c (cs : list scitem) ce rows rts,
+  Forall (smitem_ok g) its -> NoDup (map fst (map skv its)) -> ~ In VERK (map fst (map skv its)) ->
+  Forall (scol_ok g) (allcols c cs) -> NoDup (map fst (allcols c cs)) ->
+  Forall (fun c0 : scol => NoDup (map fst (map skv (snd c0)))) (allcols c cs) ->
+  Forall2 (fun cells rt => length cells = length (map fst (allcols c cs)) /\ row_spelled g cells rt) rows rts ->
+  p_grid (S (S g)) true (shtext its e ++ sctext_line c cs ce ++ concat rts)
+  = Some (Ok (VGrid V30 (map skv its) (map (fun c0 : scol => (fst c0, map skv (snd c0))) (allcols c cs))
+                    (map (fun cells => combine (map fst (allcols c cs)) cells) rows)), []).
+Proof. exact grid_spelled_reads_any_rows. Qed.
+
 (* dicts: blanks after the opening brace, after the colons, in runs between the tags and before the closing brace *)
 Theorem C03_dict_spellings : forall g a0 c0 p its b rest, pair_ok g p -> Forall (sitem_ok g) its ->
   NoDup (map fst (pkv p :: map (fun i => pkv (snd i)) its)) -> delim rest ->
@@ -218,6 +229,7 @@ Print Assumptions C03_timestamp_spellings.
 Print Assumptions C03_timestamp_case_irrelevant.
 Print Assumptions C03_header_spellings.
 Print Assumptions C03_header_and_column_spellings.
+Print Assumptions C03_document_any_spelling.
 Print Assumptions C03_dict_spellings.
 Print Assumptions C03_empty_dict_spellings.
 Print Assumptions C03_lists.
